@@ -128,6 +128,8 @@ def check (c):
         , ('2med',  [[g ['eps'], g ['sig'], 0.0, g ['c1']], [g ['eps2'], g ['sig2'], g ['h2']]], g ['boundary'], None)
         , ('3med',  [[g ['eps'], g ['sig'], 0.0, g ['c1']], [g ['eps2'], g ['sig2'], g ['h2'], g ['c1'] * g ['k2']], [g ['eps3'], g ['sig3'], g ['h3']]], g ['boundary'], None)
         , ('rad',   [[g ['eps'], g ['sig'], 0.0, g ['c1']], [g ['eps2'], g ['sig2'], g ['h2']]], 'circular', g ['radials'])
+        # a radial screen on uniform soil: both media with the same constants and height
+        , ('radu',  [[g ['eps'], g ['sig'], 0.0, g ['c1']], [g ['eps'], g ['sig'], 0.0]], 'circular', g ['radials'])
         ]
     pats = {}
     for name, media, bnd, rad in forms:
@@ -206,7 +208,7 @@ def check (c):
         if d > 1e-9:
             bad ('split', 'medium-split', 'form %s: splitting the first medium at %s coordinate %.4g (of %.4g) changes the pattern by %.3g of the maximum' % (name, g ['boundary'], cs, media [1][3], d), measured = d, allowed = 1e-9)
     # ---- (d) append a medium beyond every reflection point
-    for name, base_media, bnd, rad in (forms [0], forms [1], forms [3]):
+    for name, base_media, bnd, rad in (forms [0], forms [1], forms [3], forms [4]):
         far = max_reflection (m1, bnd or g ['boundary'])
         far = far + 1e-3 * abs (far) + 1e-6
         media = copy.deepcopy (base_media)
@@ -236,7 +238,7 @@ def check (c):
     def table (m, zen, azi):
         common.guarded (lambda: m.compute_far_field (MM.Angle (*zen), MM.Angle (*azi)), 'compute_far_field')
         return 10 ** (np.array (m.far_field.gain) / 10)
-    for name in ('2med', '3med', 'rad', '1med'):
+    for name in ('2med', '3med', 'rad', 'radu', '1med'):
         mo = pats [name][0]
         tp = table (mo, (6.0, 15.5, 6), (183.0, 60.0, 6))
         tn = table (mo, (-6.0, -15.5, 6), (3.0, 60.0, 6))
@@ -245,6 +247,17 @@ def check (c):
         worst = max (worst, d / 1e-9)
         if d > 1e-9:
             bad ('negative-zenith', 'negative-zenith', 'form %s: gain at (-theta, phi) differs from (theta, phi + 180) by %.3g of the maximum' % (name, d), measured = d, allowed = 1e-9)
+    # ---- (g) a sweep over azimuth angles is the same table as one request per azimuth angle (the ground seen by a
+    # direction does not depend on which other directions are asked for with it)
+    for name in ('2med', '3med', 'rad', 'radu'):
+        mo = pats [name][0]
+        sw = table (mo, (12.0, 31.0, 3), (20.0, 85.0, 4))
+        one = np.stack ([table (mo, (12.0, 31.0, 3), (20.0 + 85.0 * k, 85.0, 1)) [:, 0, :] for k in range (4)], axis = 1)
+        mon ['sweep=singles'] = mon.get ('sweep=singles', 0) + 1
+        d = float (np.abs (sw - one).max () / sw.max ())
+        worst = max (worst, d / 1e-12)
+        if d > 1e-12:
+            bad ('sweep=singles', 'sweep-vs-single-requests', 'form %s: an azimuth sweep differs by %.3g of the maximum from one request per azimuth angle' % (name, d), measured = d, allowed = 1e-12)
     # ---- (f) an interface coordinate of exactly 0: a linear boundary through the origin is the boundary at c1
     # seen from an antenna moved by -c1 along x; a circular boundary of radius 0 leaves the second medium only
     def shifted (dx):
